@@ -6,7 +6,6 @@ TOLERANCE tier: Float model for division / inverse / abs / norm / sigmoid (and a
 MALFORMED stream: shape mismatches, wrong ranks, aliasing `out=` buffers: error KINDS compared exactly.
 """
 import itertools
-import math
 
 import numpy as np
 
@@ -24,26 +23,35 @@ RULE = ("case = (function, operand shapes incl. the leading complex axis, operan
         "0-d / short leading axis. non-trivial iff every complex operand has an entry with non-zero real AND imaginary part (so a sign or "
         "conjugation error changes the result) and the call is not a pure error case; distinct by hash of the whole case")
 THEOREMS = {
-    "make_complex": "C15_make_complex, C15_make_complex_none, C15_ofNdarray_numpy",
+    "make_complex": "C15_make_complex, C15_make_complex_none, C15_rejects_make_complex",
     "make_complex_np": "C15_ofNdarray_numpy",
-    "real": "C15_real_imag", "imag": "C15_real_imag", "numpy": "C15_numpy",
-    "scalar_mult": "C15_scalar_mult, C15_scalar_mult_out, C15_rejects_scalar_mult_alias, C15_broadcast_shape, C15_broadcast_index",
-    "elementwise_mult": "C15_scalar_mult",
-    "matmul": "C15_matmul_mat_mat, C15_matmul_mat_vec, C15_matmul_vec_mat, C15_matmul_vec_vec, C15_matmul_batched",
-    "inner_prod": "C15_inner_prod_vec, C15_inner_prod_scalar, C15_rejects_inner_prod",
-    "outer_prod": "C15_outer_prod, C15_rejects_outer_prod",
-    "einsum": "C15_einsum, C15_einsum_flags, C15_rejects_einsum",
-    "conjugate": "C15_conjugate_low_rank, C15_conjugate_transpose",
+    "real": "C15_real_imag, C15_rejects_real_imag", "imag": "C15_real_imag, C15_rejects_real_imag",
+    "numpy": "C15_numpy, C15_ofNdarray_numpy",
+    "scalar_mult": "C15_scalar_mult, C15_scalar_mult_complex, C15_scalar_mult_out, C15_toLike, C15_rejects_scalar_mult_alias, "
+                   "C15_rejects_scalar_mult_shape, C15_broadcast_shape, C15_broadcast_index",
+    "elementwise_mult": "C15_elementwise_mult, C15_scalar_mult, C15_rejects_scalar_mult_shape",
+    "matmul": "C15_matmul_mat_mat, C15_matmul_mat_vec, C15_matmul_vec_mat, C15_matmul_vec_vec, C15_matmul_batched, "
+              "C15_matmul_batched_mat_vec, C15_matmul_is_matrix_product, C15_matmul_is_mulVec, C15_rejects_matmul",
+    "inner_prod": "C15_inner_prod_vec, C15_inner_prod_scalar, C15_inner_prod_is_star_dot, C15_rejects_inner_prod",
+    "outer_prod": "C15_outer_prod, C15_outer_prod_is_vecMulVec, C15_rejects_outer_prod",
+    "einsum": "C15_einsum, C15_einsum_complex, C15_einsum_real_part, C15_einsum_imag_part, C15_einsum_flags, C15_einsum_reads_valid, "
+              "C15_allIdx_spec, C15_sumLabels_spec, C15_einsum_ib_ibg, C15_rejects_einsum",
+    "conjugate": "C15_conjugate_low_rank, C15_conjugate_transpose, C15_conjugate_is_conjTranspose",
     "conj": "C15_conj",
-    "kronecker_prod": "C15_kronecker_prod, C15_rejects_kronecker_prod",
+    "kronecker_prod": "C15_kronecker_prod, C15_kronecker_is_kronecker, C15_rejects_kronecker_prod",
     "norm_sqr": "C15_norm_sqr",
     "elementwise_division": "C15_elementwise_division, C15_rejects_elementwise_division",
     "absolute_value": "C15_absolute_value",
-    "sigmoid": "C15_sigmoid",
+    "sigmoid": "C15_sigmoid, C15_rejects_sigmoid",
     "scalar_divide": "C15_scalar_divide",
     "inverse": "C15_inverse",
     "norm": "C15_norm",
 }
+REQUIRED_THEOREMS = sorted({t.strip() for v in THEOREMS.values() for t in v.split(",")} | {"C15_dec_ops", "C15_dec_sums"})
+EXTRA_TRUSTED = [
+    "C15: object identity and dtype of torch tensors are modelled by tags (Obj.id, Obj.dtype); the harness assigns the tags from Python `is`",
+    "C15: an `out=` buffer of the WRONG shape is outside the model (torch resizes views of it; see notes/C15.md)",
+]
 RING_FNS = ["make_complex", "make_complex_np", "real", "imag", "numpy", "scalar_mult", "elementwise_mult", "matmul", "inner_prod",
             "outer_prod", "einsum", "conjugate", "conj", "kronecker_prod", "norm_sqr"]
 FIELD_FNS = ["elementwise_division", "absolute_value", "sigmoid", "scalar_divide", "inverse", "norm"]
@@ -112,10 +120,13 @@ def rand_real(rng, shape, num, scale=1.0):
     return T(shape, rand_vals(rng, numel(shape), num, scale))
 
 
+DIMS = [1, 2, 2, 3, 3]  # axis lengths drawn by the generators (the thorough tier adds 4)
+
+
 def rand_shape(rng, rank=None):
     if rank is None:
         rank = rng.choice([0, 1, 1, 2, 2, 2, 3, 3, 4])
-    return [rng.choice([1, 2, 2, 3, 3]) for _ in range(rank)]
+    return [rng.choice(DIMS) for _ in range(rank)]
 
 
 def bcast_partner(rng, s):
@@ -427,7 +438,7 @@ def one_case(ctx, case):
     impl, iextra = run_impl(case)
     is_err = "error" in impl
     ops = [case[k] for k in ("x", "y") if case.get(k) is not None and fn not in ("make_complex", "sigmoid")]
-    nontriv = (not is_err) and all(nontrivial_operand(t) for t in ops) and (fn not in ("make_complex", "sigmoid", "make_complex_np") or True)
+    nontriv = (not is_err) and all(nontrivial_operand(t) for t in ops)
     ctx.case(case, nontrivial=nontriv, sample={"fn": fn, "num": num, "x": (case.get("x") or {}).get("shape"),
                                               "y": (case.get("y") or {}).get("shape"), "eq": case.get("eq"), "out": case.get("out"),
                                               "result": impl.get("error", impl.get("shape", impl.get("kind")))})
@@ -718,7 +729,7 @@ def gen_malformed(ctx, n_scale):
         # aliasing output buffers
         s = rand_shape(rng)
         x = rand_cplx(rng, s, num)
-        mode = rng.choice(["x", "y", "same_x", "y_f32", "x_f32"])
+        mode = rng.choice(["x", "y", "same_x", "y_f32", "x_f32", "y_is_f32"])
         if mode == "same_x":
             yield {"fn": "scalar_mult", "num": num, "x": x, "y": x, "same": True, "out": "x"}
         elif mode == "y_f32":
@@ -728,6 +739,9 @@ def gen_malformed(ctx, n_scale):
         elif mode == "x_f32":
             x["dtype"] = "f32"
             yield {"fn": "scalar_mult", "num": num, "x": x, "y": rand_cplx(rng, s, num), "out": "x"}
+        elif mode == "y_is_f32":
+            # x float64, y float32, out = y (the float32 buffer): again no alias error, product written into y
+            yield {"fn": "scalar_mult", "num": num, "x": x, "y": rand_cplx(rng, s, num, dtype="f32"), "out": "y"}
         else:
             yield {"fn": "scalar_mult", "num": num, "x": x, "y": rand_cplx(rng, s, num), "out": mode}
     for _ in R(40):
@@ -794,9 +808,11 @@ def gen_all(ctx, n_scale):
 
 
 def run(ctx):
+    global DIMS
     ctx.rule = RULE
-    n_scale = 1.0 if ctx.tier == "quick" else 8.0
-    for case in gen_all(ctx, n_scale):
+    thorough = ctx.tier == "thorough"
+    DIMS = [1, 2, 2, 3, 3, 4] if thorough else [1, 2, 2, 3, 3]
+    for case in gen_all(ctx, 25.0 if thorough else 1.0):
         one_case(ctx, case)
 
 
